@@ -158,6 +158,10 @@ def handle (j : J) : J :=
             ("key", exceptJ keyToJ (lastKey p)),
             ("depth", .int p.length)]
     | _, _ => bad "arith"
+  | some "order" =>
+    match (j.getArr? "ps").bind (·.mapM pathOfJ) with
+    | some ps => .obj [("lt", .arr (ps.map fun a => .arr (ps.map fun b => .bool (pathLt a b))))]
+    | none => bad "order"
   | some "set" =>
     match (j.getArr? "a").bind (·.mapM pathOfJ), (j.getArr? "b").bind (·.mapM pathOfJ), j.getArr? "ops" with
     | some pa, some pb, some ops =>
@@ -189,11 +193,11 @@ def handle (j : J) : J :=
     | none => bad "hier"
   | some "query" =>
     match (j.get? "v").bind valOfJ, (j.get? "p").bind pathOfJ with
-    | some v, some p => exceptJ valToJ (Val.query v p)
+    | some v, some p => .obj [("r", exceptJ valToJ (Val.query v p))]
     | _, _ => bad "query"
   | some "canon" =>
     match (j.get? "v").bind valOfJ with
-    | some v => exceptJ valToJ (Val.canonicalize dc v)
+    | some v => .obj [("r", exceptJ valToJ (Val.canonicalize dc v))]
     | none => bad "canon"
   | _ => bad "op"
 
